@@ -15,7 +15,8 @@
 From RN Require Import Base.Bytes Model.StyleDef Model.CaseModel Model.CaseSpec Model.Matcher.
 From RN Require Import Model.ConstraintsDef Model.Constraints Model.Edits Model.Hunks Model.Compound Model.Enhanced Model.HunkTail.
 From RN Require Import Gen.GenStyles.
-From RN Require Import Proofs.StandaloneP Proofs.ConstraintsP Proofs.HunkTailP1 Proofs.HunkTailP.
+From RN Require Import Model.Coercion.
+From RN Require Import Proofs.StandaloneP Proofs.ConstraintsP Proofs.HunkTailP1 Proofs.HunkTailP Proofs.CoercionP Proofs.HunkTailP2.
 Close Scope N_scope.   (* ConstraintsP opens it; the statements below count in nat *)
 
 (* an occurrence in an enabled visible style is the single match, passes the boundary test, and is mapped
@@ -107,6 +108,30 @@ Theorem C06_standalone_hunk : forall acr resolve coercion_fires coerce_variant c
   apply_edits_rev c [edit_of_thunk h] = Ok (dl ++ new ++ dr).
 Proof. exact HunkTailP.standalone_hunk_any_context. Qed.
 
+(* the same with NO assumed fact: the three coercion oracles replaced by the model of coercion.rs (Model/Coercion.v, tied
+   differentially to apply_coercion; its early return is now a theorem, CoercionP.co_early_return).  Left as parameters: the
+   ambiguity resolver and the exclude-lines predicate, neither of which the statement depends on. *)
+Theorem C06_standalone_hunk_no_assumption : forall acr resolve line_excluded o repl defaults amb S0 S1 S sw rw styles dl dr,
+  wf_acr acr = true -> visible S0 = true -> visible S1 = true -> visible S = true ->
+  (2 <= length sw)%nat -> rw <> [] -> all_neutral acr sw = true -> all_neutral acr rw = true ->
+  In S styles ->
+  hd_is is_ident_char (rev dl) = false -> hd_is is_ident_char dr = false -> head_ok dr = true ->
+  let vm := variant_map_core acr defaults [] [] false amb (to_style acr sw S0) (to_style acr rw S1) (Some styles) in
+  let occ := to_style acr sw S in
+  let new := to_style acr rw S in
+  let c := dl ++ occ ++ dr in
+  let line := after_nl dl ++ occ ++ upto_nl dr in
+  mem occ (o_exclude_match o) = false -> line_excluded line = false ->
+  let m := mk_ematch (line_of c (length dl)) (col_of c (length dl)) (length dl) (length dl + length occ) occ occ in
+  let h := {| t_line := line_of c (length dl); t_col := length (after_nl dl);
+              t_start := length dl; t_end := (length dl + length occ)%nat;
+              t_variant := occ; t_content := occ; t_replace := new;
+              t_before := line; t_after := after_nl dl ++ new ++ upto_nl dr; t_note := false |} in
+  hunk_of_match_m acr resolve line_excluded o vm c repl m = Some h /\
+  (forall ms, In m ms -> In h (generate_hunks_m acr resolve line_excluded o vm c repl ms)) /\
+  apply_edits_rev c [edit_of_thunk h] = Ok (dl ++ new ++ dr).
+Proof. exact HunkTailP2.standalone_hunk_any_context_m. Qed.
+
 (* with the delimiter contexts of C06_standalone the scanner's single match yields exactly this one hunk *)
 Theorem C06_standalone_plan : forall acr resolve coercion_fires coerce_variant compound_note coerce_auto repl
          defaults amb S0 S1 S sw rw styles dl dr,
@@ -175,6 +200,7 @@ Proof. exact ConstraintsP.compatible_all_upper. Qed.
 
 Print Assumptions C06_visible_unambiguous.
 Print Assumptions C06_standalone_hunk.
+Print Assumptions C06_standalone_hunk_no_assumption.
 Print Assumptions C06_standalone_plan.
 Print Assumptions C06_hunks_are_kept_matches.
 Print Assumptions C06_standalone.
